@@ -287,6 +287,11 @@ Fixpoint exec (s : sys) (tr : list label) : option (sys * list (N * N * bool)) :
 Definition sys_init (interval dostat : Z) (w : world) : sys :=
   mkS (gids_create interval dostat) w None.
 
+(* what the scan is given when setgrent() could not open the group database (no free descriptor: EMFILE): glibc's
+   getgrent_r then answers ENOENT — "no more entries" — at once, without an error the caller could tell from a database
+   that really is empty *)
+Definition delivered_by_scan (open_ok : bool) (db : grdb) : grdb := if open_ok then db else [].
+
 (* passwd database given as a list, first match wins (getpwnam); uid None = lookup error *)
 Fixpoint pw_of_list (l : list (name * option N)) (n : name) : pwres :=
   match l with
